@@ -38,7 +38,7 @@ def obligations(tier):
                     'samples': [(30, 4, 4), (31, 4, 4)], 'stubs': ['names modelled by their length (Span)']})
     from vf import skel
     ucfgs = [skel.cfg_of(3, None, None, True, False), skel.cfg_of(3, 3, '1.09', True, False)] if tier == 'quick' else [c for c in skel.pairwise_cfgs() if c['udf']] + [skel.cfg_of(3, None, None, True, False)]
-    for sk in ('sk1', 'sk2', 'sk3', 'sk7'):
+    for sk in ('sk1', 'sk2', 'sk3', 'sk7', 'sk10'):
         for c in ucfgs:
             params = {'sk': sk, 'cfg': c}
             b = 'three file lengths in [0, 0x3ffff800]'
